@@ -102,15 +102,7 @@ class ConvModel:
         replace calls with literal operands."""
         if self._chain is not None:
             return self._chain
-        init = self.m.method("UnitInfo", "__init__")
-        lam = None
-        for sub in self.m.funcs.values():
-            if sub.parent is init:
-                for n in ast.walk(sub.node):
-                    if isinstance(n, ast.Call) and isinstance(n.func, ast.Name) and n.func.id == "eval":
-                        lam = sub
-        if lam is None:
-            raise AnalysisError("UnitInfo.__init__: no nested function evaluating string formulas found")
+        lam = formula_compiler(self.m)
         if len(lam.params) != 1:
             raise AnalysisError("%s: expected one parameter" % lam.qual)
         s = lam.params[0]
@@ -210,3 +202,23 @@ class ConvModel:
         if D != 0 or C == 0:
             return None
         return (B / C, A / C)
+
+
+def formula_compiler(m):
+    """The function that compiles a formula string for UnitInfo (`eval("lambda x:" + rewritten formula)`): the one
+    function with a single parameter that calls eval and that UnitInfo.__init__ reaches - nested in it, or a private
+    function / static method of its module."""
+    init = m.method("UnitInfo", "__init__")
+
+    def has_eval(f):
+        return any(isinstance(n, ast.Call) and isinstance(n.func, ast.Name) and n.func.id == "eval" for n in ast.walk(f.node))
+
+    nested = [f for f in m.funcs.values() if f.parent is init and has_eval(f)]
+    if len(nested) == 1:
+        return nested[0]
+    called = {n.func.id if isinstance(n.func, ast.Name) else n.func.attr for n in ast.walk(init.node) if isinstance(n, ast.Call) and isinstance(n.func, (ast.Name, ast.Attribute))}
+    cands = [f for f in m.funcs.values() if f.path == init.path and f.parent is None and has_eval(f) and f.name in called
+             and len([p for p in f.params if p not in ("self", "cls")]) == 1]
+    if len(cands) == 1:
+        return cands[0]
+    raise AnalysisError("UnitInfo.__init__: the function that compiles string formulas (one parameter, calls eval) was not found")
